@@ -398,6 +398,7 @@ func (t *Template) parseBlock() Node {
 	var pipe Expression
 
 	name := t.expect(itemIdentifier, context, "name")
+	line := t.lex.lineNumber() // the line of the block clause, not of its {{end}}
 	bplist := t.blockParametersList(true, context)
 
 	if t.peekNonSpace().typ != itemRightDelim {
@@ -413,7 +414,7 @@ func (t *Template) parseBlock() Node {
 		contentList, end = t.itemList(nodeEnd)
 	}
 
-	block := t.newBlock(name.pos, t.lex.lineNumber(), name.val, bplist, pipe, list, contentList)
+	block := t.newBlock(name.pos, line, name.val, bplist, pipe, list, contentList)
 	t.passedBlocks[block.Name] = block
 	return block
 }
@@ -430,6 +431,7 @@ func (t *Template) parseYield() Node {
 
 	// parse block name
 	name = t.nextNonSpace()
+	line := t.lex.lineNumber() // the line of the yield clause, not of the {{end}} of its content
 	if name.typ == itemContent {
 		// content yield {{yield content}}
 		if t.peekNonSpace().typ != itemRightDelim {
@@ -466,7 +468,7 @@ func (t *Template) parseYield() Node {
 		}
 	}
 
-	return t.newYield(name.pos, t.lex.lineNumber(), name.val, bplist, pipe, content, false)
+	return t.newYield(name.pos, line, name.val, bplist, pipe, content, false)
 }
 
 func (t *Template) parseInclude() Node {
